@@ -221,6 +221,7 @@ class POXCore (EventMixin):
     self.components = {'core':self}
 
     self._go_up_deferrals = set()
+    self._is_up = False # Has UpEvent been raised?
 
     self._openflow_wanted = False
     self._handle_signals = handle_signals
@@ -439,6 +440,11 @@ class POXCore (EventMixin):
     return deferral
 
   def _goUp_stage2 (self):
+    if self._is_up:
+      # A deferral which was only requested after we were already up
+      # had nothing left to defer.
+      return
+    self._is_up = True
 
     self.raiseEvent(UpEvent())
 
